@@ -390,7 +390,7 @@ func replay(path string) int {
 		fmt.Println(err)
 		return 2
 	}
-	for _, sc := range scenariosOf(v.Property, "quick") {
+	for _, sc := range append(scenariosOf(v.Property, "quick"), scenariosOf(v.Property, "thorough")...) {
 		if sc.Name != v.Scenario {
 			continue
 		}
@@ -411,6 +411,62 @@ func replay(path string) int {
 		fmt.Printf("VIOLATION property=%s replay=%s\n  %s\n", v.Property, path, msg)
 		return 1
 	}
+	if v.Property == "C12" {
+		for variant := 0; variant < 6; variant++ {
+			for _, ks := range orderedSubsets() {
+				conds := c12Conds(ks, variant)
+				if "C12/"+condStr(conds) != v.Scenario {
+					continue
+				}
+				for _, o := range c12Outcomes() {
+					var msg string
+					vrt.Execute(vrt.Options{}, func() { msg = c12Case(conds, o) })
+					if msg != "" {
+						fmt.Printf("VIOLATION property=C12 replay=%s\n  %s\n", path, msg)
+						return 1
+					}
+				}
+				fmt.Println("replay: no violation on this tree")
+				return 0
+			}
+		}
+	}
+	// BX violations: the operation history is in the log
+	if f := bxSystemSets[v.Property]; f != nil {
+		for _, tier := range []string{"quick", "thorough"} {
+			for _, sys := range f(tier) {
+				if sys.Name != v.Scenario {
+					continue
+				}
+				msg := ""
+				r := vrt.Execute(vrt.Options{Epoch: sys.Epoch}, func() {
+					run := sys.New()
+					for i, op := range v.Log {
+						fmt.Printf("   %d: %s\n", i, op)
+						if m := run.Apply(op); m != "" {
+							msg = m
+							return
+						}
+						if m := run.Probe(); m != "" {
+							msg = m
+							return
+						}
+					}
+				})
+				if r.Panic != "" {
+					msg = "panic: " + r.Panic
+				}
+				if msg == "" {
+					fmt.Println("replay: no violation on this tree")
+					return 0
+				}
+				fmt.Printf("VIOLATION property=%s replay=%s\n  %s\n", v.Property, path, msg)
+				return 1
+			}
+		}
+	}
 	fmt.Println("scenario not found:", v.Scenario)
 	return 2
 }
+
+var bxSystemSets = map[string]func(tier string) []*BXSystem{}
